@@ -160,7 +160,9 @@ fn out_spec(i: u8) -> OutSpec {
         5 => OutSpec { assets: vec![(0, 0, 0)], ..base(0, 1_000_000) },         // asset with quantity 0
         // one output per reference-script language (the builder converts each kind in its own arm)
         6 => OutSpec { script: Some((1, plutus_bytes())), ..base(1, 1_200_000) },
-        _ => OutSpec { script: Some((3, plutus_bytes())), ..base(0, 1_300_000) },
+        7 => OutSpec { script: Some((3, plutus_bytes())), ..base(0, 1_300_000) },
+        // the same asset added twice to one output (quantities accumulate), next to another name
+        _ => OutSpec { assets: vec![(0, 0, 5), (0, 1, 2), (0, 0, 7)], ..base(1, 1_400_000) },
     }
 }
 
@@ -1006,7 +1008,16 @@ fn run_history(acc: &Acc, hist: &[Ev]) -> Outcome {
             // to 0 mints nothing, so the staged side drops zero amounts, then empty policies.
             // Scripts: the reference is the bookkeeping of the calls (every (language, bytes)
             // staged and not removed by its reference hash), not the keys of the staged map.
-            let staged_cmp = Content { mint: effective_mint(&staged.content.mint), scripts: m.content.scripts.clone(), ..staged.content.clone() };
+            // Outputs and collateral return: the reference is likewise the bookkeeping of the
+            // calls (the `Output` builder calls included: an asset added twice accumulates), not
+            // the `Output` values as they sit in the staged struct.
+            let staged_cmp = Content {
+                mint: effective_mint(&staged.content.mint),
+                scripts: m.content.scripts.clone(),
+                outputs: m.content.outputs.clone(),
+                collateral_return: m.content.collateral_return.clone(),
+                ..staged.content.clone()
+            };
             let diff = staged_cmp.first_difference(&dec.content);
             if let Some((field, detail)) = &diff {
                 fail(format!("built-content:{field}"), format!("built {field} are not the staged ones: {detail}"), json!({}));
@@ -1131,7 +1142,7 @@ pub fn wide_alphabet() -> Vec<Ev> {
         Input(0), Input(1), RemoveInput(0), RemoveInput(1),
         RefInput(0), RefInput(1), RemoveRefInput(0),
         CollInput(0), CollInput(1), RemoveCollInput(0),
-        Output(0), Output(1), Output(2), Output(3), Output(4), Output(5), Output(6), Output(7), RemoveOutput(0), RemoveOutput(1),
+        Output(0), Output(1), Output(2), Output(3), Output(4), Output(5), Output(6), Output(7), Output(8), RemoveOutput(0), RemoveOutput(1),
         CollOutput(0), CollOutput(1), CollOutput(3), CollOutput(7), ClearCollOutput,
         Fee(7), ClearFee,
     ];
@@ -1281,7 +1292,7 @@ pub fn run(ctx: Ctx) -> ! {
         Level::ModelChecking,
         cov,
         &[
-            "staged content = the public fields of the StagingTransaction (cross-checked against a bookkeeping model of the calls; divergences are diagnostics), except scripts: there the bookkeeping model is the reference (every (language, bytes) staged and not removed through its reference hash Blake2b-224(tag || bytes) must sit under its own witness-set key, each once, nothing else)",
+            "staged content = the public fields of the StagingTransaction (cross-checked against a bookkeeping model of the calls; divergences are diagnostics), except outputs / collateral return (reference = the bookkeeping of the Output builder calls) and scripts: there the bookkeeping model is the reference (every (language, bytes) staged and not removed through its reference hash Blake2b-224(tag || bytes) must sit under its own witness-set key, each once, nothing else)",
             "a staged mint amount that accumulated to 0 stands for 'nothing minted': zero amounts, then empty policies, are dropped from the staged side of the mint comparison; redeemer positions are taken in the sorted set of inputs / sorted policy ids of the built transaction",
             "sets (inputs, collateral, reference inputs, signers, datums, scripts) are compared as sets; datums, native scripts and auxiliary data up to CBOR spelling (definite/indefinite, head width)",
             "fee, script_data_hash, redeemer data and ex-units are not in the property's list and are diagnostics only",
